@@ -73,6 +73,16 @@ for dp, dn, fn in sorted(os.walk(pkg)):
             if names:
                 out["locals"][q] = names
 out["functions"].sort()
+import hashlib
+h = hashlib.sha1()
+for dp, dn, fn in sorted(os.walk(pkg)):
+    dn[:] = sorted(d for d in dn if d != "__pycache__")
+    for f in sorted(fn):
+        if f.endswith(".py") and not f.endswith("_test.py") \
+                and f != "testdata.py":
+            h.update(f.encode())
+            h.update(open(os.path.join(dp, f), "rb").read())
+out["source_digest"] = h.hexdigest()
 dst = os.path.join(os.path.dirname(os.path.dirname(os.path.abspath(__file__))),
                    "sa", "refnames.json")
 json.dump(out, open(dst, "w"), indent=0, sort_keys=True)
